@@ -438,50 +438,53 @@ def run(repo, rep, tier):
     if strf is None:
         raise AnalysisError('CIMDateTime.__str__ vanished')
     r7.functions.add(strf.fq)
-    top_if = [x for x in strf.body if isinstance(x, ast.If)]
-    if not top_if:
-        raise AnalysisError('CIMDateTime.__str__: interval/timestamp branches '
-                            'not found')
-    branches = {'interval': top_if[0].body, 'timestamp': top_if[0].orelse}
+    from ..paths import return_paths
+    spaths = return_paths(strf, max_paths=64, inline=False)
+    if not spaths:
+        raise AnalysisError('CIMDateTime.__str__: return paths not '
+                            'enumerable')
+    by_kind = {'interval': [], 'timestamp': []}
+    for p_ in spaths:
+        pol = [pl for e, pl in p_.facts if norm(e) == 'self.is_interval']
+        if not pol:
+            raise AnalysisError('CIMDateTime.__str__: a return path does '
+                                'not test self.is_interval')
+        by_kind['interval' if pol[0] else 'timestamp'].append(p_)
     pats = {'interval': '_interval_pattern', 'timestamp':
             '_timestamp_pattern'}
     env = module_env(repo, typ, dt)
-    for kind, stmts in branches.items():
+    for kind, kpaths in by_kind.items():
         r7.sites += 1
-        tab, layout = _printer_fields(strf, stmts)
+        if not kpaths:
+            raise AnalysisError('CIMDateTime.__str__: no %s path' % kind)
         node = dt.consts.get(pats[kind])
         try:
             pat = fold_const(node, env)
         except NotConst:
             pat = None
         widths = _regex_field_widths(pat) if pat else None
-        ok = bool(tab) and layout is not None and widths is not None
+        ok = widths is not None
         total = None
         seq = []
-        if ok:
+        for p_ in kpaths:
+            if not ok:
+                break
+            pieces = _text_pieces(p_.resolve(p_.value))
+            if pieces is None:
+                ok = False
+                break
             pos = 0
-            for v in layout.values:
-                if isinstance(v, ast.Constant):
-                    for ch in str(v.value):
+            seq = []
+            for pc in pieces:
+                if pc[0] == 'lit':
+                    for _ch in range(pc[1]):
                         seq.append(('lit', 1, pos))
                         pos += 1
-                elif isinstance(v, ast.FormattedValue):
-                    nm = norm(v.value)
-                    if nm in tab:
-                        b, ln = tab[nm]
-                        seq.append(('field', ln, pos, b))
-                        pos += ln
-                    elif v.format_spec is not None:
-                        spec = ''.join(str(x.value)
-                                       for x in v.format_spec.values
-                                       if isinstance(x, ast.Constant))
-                        m = re.match(r'^0?(\d+)d$', spec)
-                        ln = int(m.group(1)) if m else None
-                        seq.append(('field', ln, pos, pos))
-                        pos += ln or 0
-                    else:
-                        seq.append(('field', 1, pos, pos))   # sign
-                        pos += 1
+                else:
+                    ln, beg = pc[1], pc[2]
+                    seq.append(('field', ln, pos, pos if beg is None
+                                else beg))
+                    pos += ln or 0
             total = pos
             # every _to_str field begins where it is placed
             ok = total == 25 and all(
@@ -758,25 +761,65 @@ def _regex_field_widths(pattern):
     return out
 
 
-def _printer_fields(func, branch_stmts):
-    """(table of _to_str(begin, len) per variable, f-string layout) of one
-    branch of CIMDateTime.__str__"""
-    tab = {}
-    layout = None
-    for s in branch_stmts:
-        for n in ast.walk(s):
-            if isinstance(n, ast.Assign) and isinstance(n.value, ast.Call) \
-                    and dotted(n.value.func) == 'self._to_str' and \
-                    len(n.value.args) == 3:
-                try:
-                    tab[n.targets[0].id] = (fold_const(n.value.args[1]),
-                                            fold_const(n.value.args[2]))
-                except NotConst:
-                    return None, None
-            if isinstance(n, ast.Assign) and isinstance(n.value,
-                                                        ast.JoinedStr):
-                layout = n.value
-    return tab, layout
+def _text_pieces(e):
+    """the text an expression of CIMDateTime.__str__ produces, as a list of
+    ('lit', n) - n literal characters - and ('field', width, begin) - one
+    fixed-width number field (begin: the column _to_str() was told, None
+    for a format spec) - or None when the expression is not a
+    concatenation of such pieces"""
+    if isinstance(e, ast.Constant) and isinstance(e.value, str):
+        return [('lit', len(e.value))] if e.value else []
+    if isinstance(e, ast.JoinedStr):
+        out = []
+        for v in e.values:
+            ps = _text_pieces(v)
+            if ps is None:
+                return None
+            out += ps
+        return out
+    if isinstance(e, ast.FormattedValue):
+        if e.format_spec is None:
+            return _text_pieces(e.value) if e.conversion in (-1, 115) \
+                else None
+        spec = ''.join(str(x.value) for x in e.format_spec.values
+                       if isinstance(x, ast.Constant))
+        m = re.match(r'^0(\d+)d?$', spec)
+        return [('field', int(m.group(1)), None)] if m else None
+    if isinstance(e, ast.BinOp) and isinstance(e.op, ast.Add):
+        a, b = _text_pieces(e.left), _text_pieces(e.right)
+        return None if a is None or b is None else a + b
+    if isinstance(e, ast.IfExp):
+        a, b = _text_pieces(e.body), _text_pieces(e.orelse)
+        if a is None or b is None:
+            return None
+        if all(x[0] == 'lit' for x in a + b) and \
+                sum(x[1] for x in a) == sum(x[1] for x in b):
+            # either of two texts of the same length (the sign)
+            return [('field', sum(x[1] for x in a), None)]
+        return a if a == b else None
+    if isinstance(e, ast.Call):
+        d = dotted(e.func) or ''
+        if d == 'self._to_str' and len(e.args) == 3 and not e.keywords:
+            try:
+                return [('field', fold_const(e.args[2]),
+                         fold_const(e.args[1]))]
+            except NotConst:
+                return None
+        if d == 'str' and len(e.args) == 1:
+            return _text_pieces(e.args[0])
+        if isinstance(e.func, ast.Attribute) and e.func.attr == 'join' and \
+                isinstance(e.func.value, ast.Constant) and \
+                isinstance(e.func.value.value, str) and len(e.args) == 1 \
+                and isinstance(e.args[0], (ast.List, ast.Tuple)):
+            sep = _text_pieces(e.func.value)
+            out = []
+            for i, el in enumerate(e.args[0].elts):
+                ps = _text_pieces(el)
+                if ps is None:
+                    return None
+                out += (sep if i else []) + ps
+            return out
+    return None
 
 
 class _Body(ast.AST):
